@@ -12,6 +12,7 @@ EXPLANATION = (
     "is removed; the reopen path never truncates, never blindly re-initialises and validates the end marker. "
     "Equality of all query results before and after is not decided.")
 EXPLANATION += " Also decided: the backup path of every directory rebuild moves aside is cleared first (a directory cannot be renamed over a non-empty one: the second rebuild of a store would fail half-way), and nothing but a stale *.bak is ever removed."
+EXPLANATION += " Also decided: every LMDB environment rebuild opens is the returned store's or is explicitly closed on every path to Ok (one that is merely dropped stays in heed's process-wide cache and is handed to the next rebuild of the same backup path)."
 ASSUMPTIONS = []
 
 
